@@ -5,7 +5,8 @@
    position, the analytic peak-error bound against the exact real-number transform (IdctAccuracy.v). *)
 From Coq Require Import Reals.
 From H263V Require Import base.Prelude model.Types model.Tables model.F32 model.Recon
-  proofs.IdctFacts proofs.BasisTable proofs.AnnexASample proofs.IdctAccuracy.
+  proofs.IdctFacts proofs.BasisTable proofs.AnnexASample proofs.IdctAccuracy proofs.RlePlacement proofs.IdctClassified.
+From H263V Require Import model.Syntax.
 Local Open Scope Z_scope.
 
 (* every DC-only block (all 4096 coefficient values): the shortcut adds dc/8 rounded half away from zero ... *)
@@ -63,6 +64,27 @@ Theorem C10_first_column_blocks_accurate : forall col xo yo (c : nat),
          - Rclamp (-256) 255 (ideal4 (fun r f => if Nat.eqb f 0 then nth r col 0%Z else 0%Z) c yo / 4)) <= 0.517)%R.
 Proof. exact first_column_block_accurate. Qed.
 
+(* whatever sparsity class `classify` picks for a coefficient matrix (zero, DC only, first row, first column, full), the
+   value added at every position is within 0.632 of the exact clipped transform OF THAT MATRIX, hence within 1 of any
+   nearest rounding: choosing a shortcut never costs accuracy *)
+Theorem C10_classified_blocks_peak_error : forall m xo yo (k : Z),
+  length m = 8%nat -> (forall x y, 0 <= x < 8 -> 0 <= y < 8 -> -2048 <= mat_get m x y <= 2047) ->
+  (xo < 8)%nat -> (yo < 8)%nat ->
+  (Rabs (IZR k - ideal4 (fun r f => nth f (nth r m []) 0%Z) xo yo / 4) <= 1 / 2)%R ->
+  Z.abs (idct_value_at (idct_values (classify m)) (Z.of_nat xo) (Z.of_nat yo) - clamp (-256) 255 k) <= 1.
+Proof. exact classified_block_within_1. Qed.
+
+(* from a parsed block (INTRADC code, coefficient events) to what is added to the picture: the coefficient matrix is the
+   zig-zag placement of the dequantised levels (place_spec, C02/C11) and the added value is within 0.632 of its exact
+   clipped transform *)
+Theorem C10_decoded_block_accurate : forall b q d (xo yo : nat),
+  0 <= q -> Forall (fun t => 0 <= t_run t) (tcoefs b) -> (match intradc b with Some c => 0 <= c <= 255 | None => True end) ->
+  inverse_rle_block b q = Some d -> (xo < 8)%nat -> (yo < 8)%nat ->
+  exists coef, place_spec (tcoefs b) q (start_zz (intradc b)) (start_fun (intradc b)) = Some coef /\
+    (Rabs (IZR (idct_value_at (idct_values d) (Z.of_nat xo) (Z.of_nat yo))
+           - Rclamp (-256) 255 (ideal4 (fun r f => coef (Z.of_nat f) (Z.of_nat r)) xo yo / 4)) <= 0.632)%R.
+Proof. exact decoded_block_accurate. Qed.
+
 Print Assumptions C10_dc_blocks_exact.
 Print Assumptions C10_basis_table.
 Print Assumptions C10_zero_block.
@@ -71,3 +93,5 @@ Print Assumptions C10_full_blocks_accurate.
 Print Assumptions C10_full_blocks_peak_error.
 Print Assumptions C10_first_row_blocks_accurate.
 Print Assumptions C10_first_column_blocks_accurate.
+Print Assumptions C10_classified_blocks_peak_error.
+Print Assumptions C10_decoded_block_accurate.
